@@ -132,6 +132,8 @@ func snapAttempt(e *Event, a failsafe.ExecutionAttempt[R]) {
 	}
 	e.Start = a.StartTime().Sub(simrt.S.Start())
 	e.AttemptStart = a.AttemptStartTime().Sub(simrt.S.Start())
+	e.Elapsed, e.ElapsedAttempt = a.ElapsedTime(), a.ElapsedAttemptTime()
+	e.Flags |= FHasElapsed
 	if a.IsHedge() {
 		e.Flags |= FHedge
 	}
@@ -238,7 +240,11 @@ func (w *World) build(sc *Scenario, log *Log) {
 			case DelayFixed:
 				b.WithDelay(p.Delay)
 			case DelayBackoff:
-				b.WithBackoffFactor(p.Delay, p.MaxDelay, p.Factor)
+				if p.Factor == 2 {
+					b.WithBackoff(p.Delay, p.MaxDelay) // the documented factor of the short form
+				} else {
+					b.WithBackoffFactor(p.Delay, p.MaxDelay, p.Factor)
+				}
 			case DelayRandom:
 				b.WithRandomDelay(p.DelayMin, p.DelayMax)
 			}
@@ -289,7 +295,8 @@ func (w *World) build(sc *Scenario, log *Log) {
 					simrt.Yield("listener")
 					m := ev.Metrics()
 					e := Event{Kind: EvListener, Pos: i, L: l, A: int64(ev.OldState), B: int64(ev.NewState),
-						Attempts: int(m.Executions()), Executions: int(m.Failures()), Retries: int(m.Successes()), Hedges: int(m.FailureRate())}
+						Attempts: int(m.Executions()), Executions: int(m.Failures()), Retries: int(m.Successes()), Hedges: int(m.FailureRate()),
+						Aux: []int{int(m.SuccessRate()), map[bool]int{false: 0, true: 1}[ev.Context() == nil]}}
 					w.log.add(e)
 				}
 			}
